@@ -7,7 +7,7 @@ import ast
 from sa.cfg import CFG, no_exc
 from sa.guards import FactFlow
 from sa.loader import (
-    AnalysisError, FuncDef, Repo, ancestors, call_name, enclosing_function, last_attr, module_of,
+    AnalysisError, FuncDef, Repo, ancestors, call_name, enclosing_function, fixture, last_attr, module_of,
     parent, qualname_of, unparse, walk_body,
 )  # fmt: skip
 from sa.report import Check, node_text
@@ -566,3 +566,114 @@ def wrapped_kind_test(check: Check, repo: Repo, mods: list, rule: str = "WRAPPED
                          f"`{var}` may be a GraphQLNonNull wrapper here and nothing in this function unwraps or tests it first")
     if n < 10:
         raise AnalysisError(f"WRAPPED-KIND-TEST: only {n} sites found")
+
+
+# --------------------------------------------------------------------------- #
+# NONNULL-INVARIANT: a test that looks through the wrappers decides the same for T and T!
+
+_KINDS = {
+    "is_scalar_type": {"scalar"}, "is_enum_type": {"enum"}, "is_object_type": {"object"}, "is_interface_type": {"interface"},
+    "is_union_type": {"union"}, "is_input_object_type": {"input"}, "is_leaf_type": {"scalar", "enum"},
+    "is_composite_type": {"object", "interface", "union"}, "is_abstract_type": {"interface", "union"},
+}
+
+
+class _NoShape(Exception):
+    pass
+
+
+def _shape_eval(e: ast.AST, env: dict[str, tuple]):
+    """Evaluate a wrapper/kind test over an abstract type shape: ('named', kind) | ('list', s) | ('nonnull', s)."""
+    if isinstance(e, ast.BoolOp):
+        vals = [_shape_eval(v, env) for v in e.values]
+        return all(vals) if isinstance(e.op, ast.And) else any(vals)
+    if isinstance(e, ast.UnaryOp) and isinstance(e.op, ast.Not):
+        return not _shape_eval(e.operand, env)
+    if isinstance(e, ast.Name):
+        if e.id in env:
+            return env[e.id]
+        raise _NoShape(e.id)
+    if isinstance(e, ast.Attribute) and e.attr == "of_type":
+        s = _shape_eval(e.value, env)
+        if isinstance(s, tuple) and s[0] in ("list", "nonnull"):
+            return s[1]
+        raise _NoShape("of_type of a named type")
+    if isinstance(e, ast.Call) and isinstance(e.func, ast.Name) and len(e.args) == 1 and not e.keywords:
+        f = e.func.id
+        s = _shape_eval(e.args[0], env)
+        if not isinstance(s, tuple):
+            raise _NoShape(f)
+        if f == "is_list_type":
+            return s[0] == "list"
+        if f == "is_non_null_type":
+            return s[0] == "nonnull"
+        if f == "is_nullable_type":
+            return s[0] != "nonnull"
+        if f == "is_wrapping_type":
+            return s[0] in ("list", "nonnull")
+        if f == "is_named_type":
+            return s[0] == "named"
+        if f in _KINDS:
+            return s[0] == "named" and s[1] in _KINDS[f]
+        if f in ("get_nullable_type", "assert_nullable_type"):
+            return s[1] if s[0] == "nonnull" else s
+        if f == "get_named_type":
+            while s[0] != "named":
+                s = s[1]
+            return s
+    raise _NoShape(unparse(e)[:40])
+
+
+def nonnull_invariant_violation(expr: ast.AST) -> tuple[str, str] | None:
+    """For a boolean expression that uses get_named_type(v) and is_list_type(v) on one variable v: a pair of
+    shapes (T, T!) on which it decides differently, or None."""
+    named = {unparse(c.args[0]) for c in ast.walk(expr) if isinstance(c, ast.Call) and call_name(c) == "get_named_type" and len(c.args) == 1}
+    listed = {unparse(c.args[0]) for c in ast.walk(expr) if isinstance(c, ast.Call) and call_name(c) == "is_list_type" and len(c.args) == 1}
+    both = [v for v in named & listed if v.isidentifier()]
+    if not both:
+        return None
+    v = both[0]
+    for kind in ("scalar", "object", "input"):
+        n = ("named", kind)
+        for base in (n, ("list", n), ("list", ("nonnull", n)), ("list", ("list", n))):
+            try:
+                a = _shape_eval(expr, {v: base})
+                b = _shape_eval(expr, {v: ("nonnull", base)})
+            except _NoShape:
+                return None
+            if isinstance(a, bool) and isinstance(b, bool) and a != b:
+                def show(s):
+                    return s[1].capitalize() if s[0] == "named" else (f"[{show(s[1])}]" if s[0] == "list" else show(s[1]) + "!")
+                return f"{show(base)} -> {a}", f"{show(('nonnull', base))} -> {b}"
+    return None
+
+
+def nonnull_invariant(check: Check, mods: list, rule: str = "NONNULL-INVARIANT") -> int:
+    check.rule(
+        rule,
+        "a boolean test that looks through the wrappers of a type (get_named_type(t)) and also asks whether t is a "
+        "list (is_list_type(t)) is evaluated over the abstract shapes T, [T], [T!], [[T]] and their non-null twins (the "
+        "predicates are interpreted, nothing is run): it decides the same for a shape and for the same shape wrapped in "
+        "NonNull. `is_leaf_type(get_named_type(t)) and not is_list_type(t)` is True for [Int]! - a non-null inner list "
+        "is then completed as if it were a scalar",
+    )
+    fx = fixture("generic_controls")
+    bad = next(x.value for x in ast.walk(fx.get("nonnull_invariant_bad")) if isinstance(x, ast.Return))
+    good = next(x.value for x in ast.walk(fx.get("nonnull_invariant_ok")) if isinstance(x, ast.Return))
+    check.control(f"{rule}:bad", nonnull_invariant_violation(bad) is not None, True)
+    check.control(f"{rule}:ok", nonnull_invariant_violation(good) is not None, False)
+    n = 0
+    for mod in mods:
+        for e in ast.walk(mod.tree):
+            if not isinstance(e, (ast.BoolOp, ast.IfExp)) or isinstance(parent(e), ast.BoolOp):
+                continue
+            test = e.test if isinstance(e, ast.IfExp) else e
+            if "get_named_type" not in unparse(test) or "is_list_type" not in unparse(test):
+                continue
+            r = nonnull_invariant_violation(test)
+            n += 1
+            check.ob(rule, e, f"{qualname_of(e)}: `{unparse(test)[:80]}`", r is None,
+                     "same decision for T and T! on all shapes" if r is None else f"decides {r[0]} but {r[1]}")
+    if n == 0:
+        check.ob(rule, mods[0].tree, "no test combines get_named_type(t) with is_list_type(t)", True, f"{len(mods)} modules scanned", nontrivial=False)
+    return n
